@@ -44,28 +44,34 @@ pub fn echo(paths: &[PathBuf], suppress_output: bool) -> Result<(), String> {
     let mut project = create_project(paths, suppress_output)?;
 
     // Collect the results and output after because getting the results may change
-    // the project itself
+    // the project itself. The results are the rendered text or the problems, so that
+    // the project is free again to show the problems in their source text.
     let mut results = vec![];
     for src in project.sources_mut() {
-        results.push(src.library());
+        let result = match src.library() {
+            Ok(library) => Ok(write_to_string(library)),
+            Err(diagnostics) => Err(diagnostics
+                .into_iter()
+                .cloned()
+                .collect::<Vec<Diagnostic>>()),
+        };
+        results.push(result);
     }
 
     let mut has_error = false;
 
     for result in results {
         match result {
-            Ok(library) => {
-                let output = write_to_string(library).map_err(|e| {
-                    handle_diagnostics(&e, None, suppress_output);
+            Ok(rendered) => {
+                let output = rendered.map_err(|e| {
+                    handle_diagnostics(&e, Some(&project), suppress_output);
                     String::from("Error echo source")
                 })?;
 
                 print!("{}", output);
             }
             Err(diagnostics) => {
-                let diagnostics: Vec<Diagnostic> = diagnostics.into_iter().cloned().collect();
-                // TODO this needs to be improved but will wait for changes to source
-                handle_diagnostics(&diagnostics, None, suppress_output);
+                handle_diagnostics(&diagnostics, Some(&project), suppress_output);
 
                 print!("Syntax error");
 
